@@ -1,6 +1,7 @@
 package main
 
 import (
+	glog "github.com/labstack/gommon/log"
 	"context"
 	"encoding/json"
 	"errors"
@@ -142,6 +143,11 @@ func genC07(rng *rand.Rand, n int, emit func(Case), dist map[string]int) {
 		e := echo.New()
 		e.Logger.SetOutput(io.Discard)
 		e.Debug = rng.Intn(4) == 0
+		if !e.Debug && rng.Intn(4) == 0 {
+			// a verbose LOGGER is not debug mode: what clients are told depends on Echo.Debug alone
+			e.Logger.SetLevel(glog.DEBUG)
+			dist["debug_off_logger_level_debug"]++
+		}
 		switch rng.Intn(4) {
 		case 0:
 			e.Use(middleware.Recover()) // defaults: prints the stack through the (discarded) logger
